@@ -26,6 +26,8 @@ META = {
 def run(repo, rep):
     alg.reset()
     common.state_rule(repo, rep, [('geodepy.geodesy', 'vincdir')])
+    # 'any ellipsoid': the class keeps the defining constants it is given and derives the rest from them
+    common.ellipsoid_rules(repo, rep, projections=False)
     common.typecheck_rules(repo, rep)
     common.domain_guards(repo, rep, 'geodepy.geodesy', 'vincdir', ['lat1', 'lon1', 'az', 'dist'],
                          {'lat1': (-90, 90), 'lon1': (-180, 180), 'az': (0, 360), 'dist': (0, 20000000)}, 'latitudes -90..90, longitudes -180..180, azimuths 0..360, distances 0..20 000 km')
